@@ -246,7 +246,7 @@ class Safe:
                 if g is not None:
                     gc = self.tr.cond(g, env)
                     c = f"{c} ∧ {gc}" if c else gc
-                conds = [f"¬({x})" for x in prev] + ([c] if c else [])
+                conds = [f"¬({x})" for x in prev] + ([f"({c})"] if c else [])
                 inner = self.blockv(body, dict(env), expect)
                 obs += self.imp(" ∧ ".join(conds), inner) if conds else inner
                 if c is None:
